@@ -17,7 +17,10 @@ watches, the callbacks made by the step) is compared with the spec state: a mism
 never a violation.  The model variant replayed is the one the tree implements (behavioural probe).
 Direction B: TLC counterexamples of the weaker model variants (unchanged code, partial repairs)
 executed as histories; a systematic family around deletion/re-creation of the path; seeded random
-histories of three kinds (free mix, path churn with a lagging client, bursts of members).
+histories of three kinds (free mix, path churn with a lagging client, bursts of members); a family of
+re-registrations (an instance's node is deleted and a node with EQUAL member data is created under another
+name, inside one listing window or in separate ones).  Events carry the node name `m` and the data id `d`;
+`d` of a Join/Leave is read from the Member value the callback received, and ZkAbs judges by value.
 All traces (A and B) are judged by ZkAbs through ZkAbsTrace.
 """
 import collections
@@ -42,7 +45,10 @@ ASSUMPTIONS = [
   'a watch event is queued on the (real) kazoo callback worker when it fires: delaying it on the wire is equivalent, '
   'for a client that only acts when it reads from its connection, to the tree operation happening later',
   'the session never disconnects or expires (no SUSPENDED/LOST transitions)',
-  'member data is well-formed serverset JSON; members are identified by node name',
+  'member data is well-formed serverset JSON; a member is identified the way a consumer can identify it, by the Member '
+  'value it is handed (equal data = equal member, like LoadBalancerSink keys servers by endpoint); histories never have two '
+  'nodes with equal data alive at the same time (the statement does not say whether present means nodes or values then), '
+  'a node name always carries the same data; successive registrations of one instance under different node names are covered',
   'virtual-time gevent loop preserves gevent callback FIFO order (selftest)',
   'TLC exhaustive only within the stated constants (member names, history length, re-creations of the path)',
 ]
@@ -50,7 +56,7 @@ RULE = {'C19': 'tree histories (create/delete of members, delete/re-create of th
                'steps: TLC counterexamples of weaker designs, every transition of the bounded state graph, TLC-simulated '
                'behaviours, a systematic family (k members cached, members deleted, path deleted and re-created with every '
                'subset, settled or not, under every single-callback raising policy) and seeded random histories (free mix, '
-               'path churn with a lagging client, member bursts); non-trivial = at least one member created and at least '
+               'path churn with a lagging client, member bursts) and a re-registration family (node deleted, node with equal data created under another name, 0/1/2 Serve steps or a quiescent point apart); node names may share data values; non-trivial = at least one member created and at least '
                'one of: path deleted, a member read answered NoNode, a callback raised, a tree operation while requests '
                'are pending; distinct by canonical event list'}
 
@@ -73,7 +79,10 @@ def models(prop, tier):
   out = [dict(module='ZkServerSet', cfg='ZkServerSet_q.cfg', env=full, coverage=True,
               what='repaired design DW+PD+VM: 2 names, history <= 7, path created <= 3x, raising policy <= 1'),
          dict(module='ZkServerSet', cfg='ZkServerSet_n1.cfg', env=full,
-              what='repaired design: 1 name, history <= 10, path created <= 4x (deep churn of the path)')]
+              what='repaired design: 1 name, history <= 10, path created <= 4x (deep churn of the path)'),
+         dict(module='ZkServerSet', cfg='ZkServerSet_d.cfg', env=full,
+              what='repaired design: 3 node names carrying 2 data values (an instance registering again under a '
+                   'new node name), history <= 7, path created <= 2x')]
   if tier != 'quick':
     out.append(dict(module='ZkServerSet', cfg='ZkServerSet_t2.cfg', env=full, timeout=6000, heap='24g',
                     what='repaired design: 2 names, history <= 13, path created <= 5x, raising policy <= 2'))
@@ -101,13 +110,16 @@ def _pick_names(n):
 class Driver(object):
   """Runs the real provider/ServerSet over FakeZK and records the C19 events."""
 
-  def __init__(self, loop, n_names, rj, rl, endpoint_name=None):
+  def __init__(self, loop, n_names, rj, rl, endpoint_name=None, nvalues=None):
     import gevent
     from harness.simgevent.fakezk import FakeZK, member_blob
     from scales.loadbalancer.serverset import ZooKeeperServerSetProvider
     self.loop = loop
     self.names = _pick_names(n_names)
     self.idx = dict((nm, i + 1) for i, nm in enumerate(self.names))
+    # member data of node m: value ((m-1) % nvalues) + 1; nvalues < n_names: nodes m and m+nvalues carry
+    # EQUAL data (one instance registering again under a new node name)
+    self.nvalues = nvalues or n_names
     self.rj = set(rj)
     self.rl = set(rl)
     self.ev = []
@@ -135,34 +147,51 @@ class Driver(object):
   class ConsumerError(Exception):
     pass
 
+  def value_of(self, m):
+    return ((m - 1) % self.nvalues) + 1
+
   def _m(self, member):
     return self.idx.get(getattr(member, 'name', None), UNKNOWN)
 
+  @staticmethod
+  def _d(member):
+    """The identity a consumer can see: the Member VALUE (here: its service endpoint, which the
+    driver makes a function of the data id; Member.__eq__ ignores the node name)."""
+    try:
+      return int(member.service_endpoint.port) - 8000
+    except Exception:
+      return UNKNOWN
+
   def on_join(self, member):
-    m = self._m(member)
-    self.ev.append({'e': 'Join', 'm': m})
-    if m in self.rj:
-      self.ev.append({'e': 'Raised', 'm': 0})
-      raise Driver.ConsumerError('join %s' % m)
+    d = self._d(member)
+    self.ev.append({'e': 'Join', 'm': self._m(member), 'd': d})
+    if d in self.rj:
+      self.ev.append({'e': 'Raised', 'm': 0, 'd': 0})
+      raise Driver.ConsumerError('join %s' % d)
 
   def on_leave(self, member):
-    m = self._m(member)
-    self.ev.append({'e': 'Leave', 'm': m})
-    if m in self.rl:
-      self.ev.append({'e': 'Raised', 'm': 0})
-      raise Driver.ConsumerError('leave %s' % m)
+    d = self._d(member)
+    self.ev.append({'e': 'Leave', 'm': self._m(member), 'd': d})
+    if d in self.rl:
+      self.ev.append({'e': 'Raised', 'm': 0, 'd': 0})
+      raise Driver.ConsumerError('leave %s' % d)
 
   # -- tree
   def present(self):
-    ch = self.zk.srv_children(PATH)
-    return sorted(self.idx[c] for c in (ch or []) if c in self.idx)
+    """Member data ids of the member nodes now under the path (read back from the tree)."""
+    import json
+    out = set()
+    for c in (self.zk.srv_children(PATH) or []):
+      if c in self.idx:
+        out.add(int(json.loads(self.zk.nodes[PATH + '/' + c].data)['serviceEndpoint']['port']) - 8000)
+    return sorted(out)
 
   def quiescent(self):
     return self.zk.pending() == 0
 
   def mark_q(self):
     if self.quiescent():
-      self.ev.append({'e': 'Q', 'm': 0, 'present': self.present()})
+      self.ev.append({'e': 'Q', 'm': 0, 'd': 0, 'present': self.present()})
 
   def op(self, o):
     """One step.  Returns False if the step is not possible in the current tree."""
@@ -173,44 +202,47 @@ class Driver(object):
       if zk.srv_exists(PATH):
         return False
       zk.srv_create(PATH, b'')
-      self.ev.append({'e': 'PCreate', 'm': 0})
+      self.ev.append({'e': 'PCreate', 'm': 0, 'd': 0})
     elif k == 'PD':
       if not zk.srv_exists(PATH) or zk.srv_children(PATH):
         return False
       zk.srv_delete(PATH)
-      self.ev.append({'e': 'PDelete', 'm': 0})
+      self.ev.append({'e': 'PDelete', 'm': 0, 'd': 0})
     elif k == 'ZC':
       nm = self.names[o[1] - 1]
       if not zk.srv_exists(PATH) or zk.srv_exists(PATH + '/' + nm):
         return False
-      port = 8000 + o[1] + 10 * (o[2] if len(o) > 2 else 0)
-      eps = {'http': ('h%d' % o[1], port + 100)}
+      d = self.value_of(o[1])
+      if d in self.present():
+        return False       # never two nodes with equal data alive at once (see ZkAbs)
+      port = 8000 + d
+      eps = {'http': ('h%d' % d, port + 100)}
       if self.endpoint_name:
-        eps[self.endpoint_name] = ('h%d' % o[1], port + 200)
-      zk.srv_create(PATH + '/' + nm, self.blob('h%d' % o[1], port, eps, shard=o[1]))
-      self.ev.append({'e': 'ZCreate', 'm': o[1]})
+        eps[self.endpoint_name] = ('h%d' % d, port + 200)
+      zk.srv_create(PATH + '/' + nm, self.blob('h%d' % d, port, eps, shard=d))
+      self.ev.append({'e': 'ZCreate', 'm': o[1], 'd': d})
     elif k == 'ZD':
       nm = self.names[o[1] - 1]
       if not zk.srv_exists(PATH + '/' + nm):
         return False
       zk.srv_delete(PATH + '/' + nm)
-      self.ev.append({'e': 'ZDelete', 'm': o[1]})
+      self.ev.append({'e': 'ZDelete', 'm': o[1], 'd': self.value_of(o[1])})
     elif k == 'OC':      # a non-member child appears / disappears
       if not zk.srv_exists(PATH) or zk.srv_exists(PATH + '/' + OTHER):
         return False
       zk.srv_create(PATH + '/' + OTHER, b'not a member')
-      self.ev.append({'e': 'Other', 'm': 0})
+      self.ev.append({'e': 'Other', 'm': 0, 'd': 0})
     elif k == 'OD':
       if not zk.srv_exists(PATH + '/' + OTHER):
         return False
       zk.srv_delete(PATH + '/' + OTHER)
-      self.ev.append({'e': 'Other', 'm': 0})
+      self.ev.append({'e': 'Other', 'm': 0, 'd': 0})
     elif k == 'GM':      # a user greenlet lists the members (GetServers -> ServerSet.__iter__, _cb_blocker)
       if getattr(self.prov, '_server_set', None) is None:
         return False
       import gevent
       gevent.spawn(self.prov.GetServers)
-      self.ev.append({'e': 'Other', 'm': 0})
+      self.ev.append({'e': 'Other', 'm': 0, 'd': 0})
     elif k == 'S':
       if not zk.pending():
         return False
@@ -218,7 +250,7 @@ class Driver(object):
       op, path, outcome = zk.serve()
       if outcome == 'nonode' and op == 'get' and path != PATH:
         self.nonode_reads += 1
-      self.ev.append({'e': 'Serve', 'm': 0})
+      self.ev.append({'e': 'Serve', 'm': 0, 'd': 0})
     elif k == 'Q':
       n = 0
       while zk.pending():
@@ -282,15 +314,29 @@ def run_case(script):
     o = _replay_one(script['behaviour'])
     return {'cfg': o['cfg'], 'ev': o['ev'], 'meta': o.get('meta')}
   loop = common.boot()
-  d = Driver(loop, script['n'], script.get('rj', []), script.get('rl', []), script.get('endpoint'))
+  d = Driver(loop, script['n'], script.get('rj', []), script.get('rl', []), script.get('endpoint'),
+             script.get('nv'))
   d.mark_q()
   for o in script['ops']:
     d.op(o)
   d.op(['Q'])
-  return {'cfg': {'n': script['n'], 'rj': sorted(d.rj), 'rl': sorted(d.rl)}, 'ev': d.ev, 'meta': _meta(d, loop)}
+  return {'cfg': {'n': script['n'], 'nv': d.nvalues, 'rj': sorted(d.rj), 'rl': sorted(d.rl)}, 'ev': d.ev,
+          'meta': _meta(d, loop)}
 
 
 # ------------------------------------------------------------------ direction B: histories
+def _val(m, nv):
+  return ((m - 1) % nv) + 1
+
+
+def _pick_nv(rng, n):
+  """Number of distinct member data values for n node names: often fewer than names, so that an
+  instance can register again under another node name (delete + create with equal data)."""
+  if n == 1 or rng.random() < 0.5:
+    return n
+  return rng.randint(1, n - 1)
+
+
 def _gen_script(rng, n, thorough):
   """Tree-aware random history: tree operations interleaved with single Serve steps."""
   ops = []
@@ -299,17 +345,17 @@ def _gen_script(rng, n, thorough):
   other = False
   n_env = rng.randint(3, 14 if thorough else 10)
   p_serve = rng.choice([0.3, 0.5, 0.7, 0.85])
+  nv = _pick_nv(rng, n)
   pol = rng.random()
   rj, rl = [], []
   if pol < 0.25:
-    rl = [rng.randint(1, n)]
+    rl = [rng.randint(1, nv)]
   elif pol < 0.4:
-    rj = [rng.randint(1, n)]
+    rj = [rng.randint(1, nv)]
   elif pol < 0.5:
-    rl = list(range(1, n + 1))
-    rj = [rng.randint(1, n)]
+    rl = list(range(1, nv + 1))
+    rj = [rng.randint(1, nv)]
   env = 0
-  gen = 0
   while env < n_env:
     if rng.random() < p_serve:
       ops.append(['S'])
@@ -327,9 +373,8 @@ def _gen_script(rng, n, thorough):
       for m in range(1, n + 1):
         if m in kids:
           cand += [['ZD', m]] * 2
-        else:
-          gen += 1
-          cand += [['ZC', m, gen % 5]] * 2
+        elif _val(m, nv) not in [_val(k, nv) for k in kids]:
+          cand += [['ZC', m]] * 2
       if not kids and not other:
         cand += [['PD']] * 3
       if rng.random() < 0.1:
@@ -353,7 +398,7 @@ def _gen_script(rng, n, thorough):
       other = True
     elif o[0] == 'OD':
       other = False
-  return {'n': n, 'rj': rj, 'rl': rl, 'ops': ops,
+  return {'n': n, 'nv': nv, 'rj': rj, 'rl': rl, 'ops': ops,
           'endpoint': rng.choice([None, None, 'aux'])}
 
 
@@ -362,6 +407,7 @@ def _gen_churn(rng, n):
   lags behind: few Serve steps between tree operations, so that watch callbacks, listings and
   member reads of one incarnation are answered in a later one."""
   ops = []
+  nv = _pick_nv(rng, n)
   lag = rng.choice([0.0, 0.3, 0.5, 0.7, 1.0, 1.5])
 
   def serves():
@@ -381,16 +427,17 @@ def _gen_churn(rng, n):
     for _ in range(rng.randint(0, 3)):
       ops.append(['S'])
   parent = bool(ops and ops[0] == ['PC'])
-  gen = 0
   for _cycle in range(rng.randint(2, 4)):
     if not parent:
       ops.append(['PC'])
       parent = True
       serves()
-    ms = rng.sample(range(1, n + 1), rng.randint(0, min(2, n)))
+    ms = []
+    for m in rng.sample(range(1, n + 1), rng.randint(0, min(2, n))):
+      if _val(m, nv) not in [_val(k, nv) for k in ms]:
+        ms.append(m)
     for m in ms:
-      gen += 1
-      ops.append(['ZC', m, gen % 5])
+      ops.append(['ZC', m])
       serves()
     rng.shuffle(ms)
     for m in ms:
@@ -406,46 +453,76 @@ def _gen_churn(rng, n):
     ops.append(['PC'])
     serves()
     m = rng.randint(1, n)
-    ops.append(['ZC', m, 3])
+    ops.append(['ZC', m])
   pol = rng.random()
   rj, rl = [], []
   if pol < 0.2:
-    rl = [rng.randint(1, n)]
+    rl = [rng.randint(1, nv)]
   elif pol < 0.3:
-    rj = [rng.randint(1, n)]
-  return {'n': n, 'rj': rj, 'rl': rl, 'ops': ops, 'endpoint': None}
+    rj = [rng.randint(1, nv)]
+  return {'n': n, 'nv': nv, 'rj': rj, 'rl': rl, 'ops': ops, 'endpoint': None}
 
 
 def _gen_burst(rng, n):
   """Many members appear at once (one listing with several nodes to read), then members
-  are toggled while the worker is still reading: listings queue up behind the worker."""
+  are toggled while the worker is still reading: listings queue up behind the worker.  A deleted
+  member often comes back at once under its twin node name (equal data)."""
   ops = [['PC']]
+  nv = n if rng.random() < 0.5 else n - 1
   for _ in range(rng.randint(1, 3)):
     ops.append(['S'])
   present = set()
   first = rng.sample(range(1, n + 1), rng.randint(2, n))
   for m in first:
-    ops.append(['ZC', m])
-    present.add(m)
-  gen = 0
+    if _val(m, nv) not in [_val(k, nv) for k in present]:
+      ops.append(['ZC', m])
+      present.add(m)
   for _ in range(rng.randint(3, 8)):
-    for _k in range(rng.choice([1, 1, 2, 2, 3])):
+    for _k in range(rng.choice([0, 1, 1, 2, 2, 3])):
       ops.append(['S'])
     m = rng.randint(1, n)
     if m in present:
       ops.append(['ZD', m])
       present.discard(m)
-    else:
-      gen += 1
-      ops.append(['ZC', m, gen % 5])
+      twin = [k for k in range(1, n + 1) if k != m and _val(k, nv) == _val(m, nv)]
+      if twin and rng.random() < 0.6:     # the instance registers again at once under another name
+        ops.append(['ZC', twin[0]])
+        present.add(twin[0])
+    elif _val(m, nv) not in [_val(k, nv) for k in present]:
+      ops.append(['ZC', m])
       present.add(m)
   pol = rng.random()
   rj, rl = [], []
   if pol < 0.15:
-    rl = [rng.randint(1, n)]
+    rl = [rng.randint(1, nv)]
   elif pol < 0.3:
-    rj = [rng.randint(1, n)]
-  return {'n': n, 'rj': rj, 'rl': rl, 'ops': ops, 'endpoint': None}
+    rj = [rng.randint(1, nv)]
+  return {'n': n, 'nv': nv, 'rj': rj, 'rl': rl, 'ops': ops, 'endpoint': None}
+
+
+def _reregistrations():
+  """An instance registers again under a new node name: the old node is deleted and a node with
+  EQUAL data is created, k Serve steps apart (k = 0: both changes fall into one child listing;
+  'Q': two separate listings), with another member present or not, there and back, under
+  every single-callback raising policy."""
+  out = []
+  for other in (False, True):
+    n, nv = (3, 2) if other else (2, 1)
+    a, b = (1, 3) if other else (1, 2)          # two node names carrying the same data value 1
+    pols = [([], []), ([], [1]), ([1], [])] + ([([], [2]), ([2], [])] if other else [])
+    for gap in (0, 1, 2, 'Q'):
+      for lag in (0, 1, 2, 'Q'):
+        for rj, rl in pols:
+          ops = [['PC'], ['Q'], ['ZC', a]] + ([['ZC', 2]] if other else [])
+          ops += [['Q']] if lag == 'Q' else [['S']] * lag
+          for (x, y) in ((a, b), (b, a)):
+            ops.append(['ZD', x])
+            ops += [['Q']] if gap == 'Q' else [['S']] * gap
+            ops.append(['ZC', y])
+            ops += [['Q']] if lag == 'Q' else [['S']] * lag
+          ops.append(['Q'])
+          out.append({'n': n, 'nv': nv, 'rj': rj, 'rl': rl, 'ops': ops, 'endpoint': None})
+  return out
 
 
 def _systematic():
@@ -470,9 +547,9 @@ def _systematic():
           ops.append(['PC'])
           for m in range(1, n + 1):
             if back & (1 << (m - 1)):
-              ops.append(['ZC', m, 1])
+              ops.append(['ZC', m])
           ops.append(['Q'])
-          out.append({'n': n, 'rj': rj, 'rl': rl, 'ops': ops, 'endpoint': None})
+          out.append({'n': n, 'nv': n, 'rj': rj, 'rl': rl, 'ops': ops, 'endpoint': None})
   return out
 
 
@@ -486,6 +563,9 @@ _WEAKER = [
   (['PD', 'VM'], 'ZkServerSet_q.cfg', False),
   (['VM', 'DW'], 'ZkServerSet_q.cfg', False),
   (['PD', 'VM', 'DW', 'NOINV'], 'ZkServerSet_n1.cfg', False),   # needs a history of 10 tree operations
+  # "make before break": joins of a listing before its leaves; fails when an instance registers again
+  # under a new node name (equal data) within one listing
+  (['PD', 'VM', 'DW', 'JBL'], 'ZkServerSet_d.cfg', False),
 ]
 
 
@@ -510,11 +590,11 @@ def _counterexample_scripts(tier):
     for v in ('rj', 'rl'):
       mm = re.search(r'^/\\ %s = (\{[^}]*\})' % v, r.stdout, re.M)
       pol[v] = tlc.parse_tla(mm.group(1)) if mm else []
-    n = max([2] + [o[1] for o in ops if len(o) > 1])
+    n, nv = _cfg_consts(cfg)
     out = []
-    for swap in (False, True):
+    for swap in ((False, True) if nv >= n else (False,)):
       o2 = [[o[0]] + ([n + 1 - o[1]] if swap else [o[1]]) if len(o) > 1 else list(o) for o in ops]
-      out.append({'n': n, 'rj': [n + 1 - x if swap else x for x in pol['rj']],
+      out.append({'n': n, 'nv': nv, 'rj': [n + 1 - x if swap else x for x in pol['rj']],
                   'rl': [n + 1 - x if swap else x for x in pol['rl']], 'ops': o2, 'endpoint': None,
                   'origin': 'TLC counterexample of model variant %s' % ('+'.join(flags) or 'unrepaired')})
     return out
@@ -531,7 +611,7 @@ def cases(prop, tier, seed):
   rng = random.Random(1000003 * int(seed) + 19)
   thorough = tier != 'quick'
   n = 1000 if not thorough else 6000
-  out = list(_counterexample_scripts(tier)) + list(_systematic())
+  out = list(_counterexample_scripts(tier)) + list(_systematic()) + list(_reregistrations())
   for i in range(n):
     if i % 3 == 2:
       out.append(_gen_churn(rng, [1, 2, 2, 3][(i // 3) % 4]))
@@ -573,9 +653,9 @@ def witness(prop, t, consumed, clause):
   held = 0
   for i, e in enumerate(ev[:-1] if ev and ev[-1]['e'] in ('Join', 'Leave') else ev):
     if e['e'] == 'Join':
-      view.add(e['m'])
+      view.add(e['d'])
     elif e['e'] == 'Leave':
-      view.discard(e['m'])
+      view.discard(e['d'])
     if i == last_pd:
       held = len(view)
   w = {'parent_deleted': last_pd >= 0, 'parent_recreated': False, 'settled_before_recreate': False,
@@ -605,9 +685,9 @@ def witness(prop, t, consumed, clause):
     missing = present - view
     start = max([i for i, e in enumerate(ev) if e['e'] == 'PCreate'] or [0])
     w['missing_existed_in_earlier_incarnation'] = any(
-      e['e'] == 'ZCreate' and e['m'] in missing for e in ev[:max(last_pd, 0)])
+      e['e'] == 'ZCreate' and e['d'] in missing for e in ev[:max(last_pd, 0)])
     w['missing_recreated_in_current_incarnation'] = any(
-      sum(1 for e in ev[start:] if e['e'] == 'ZCreate' and e['m'] == m) >= 2 for m in missing)
+      sum(1 for e in ev[start:] if e['e'] == 'ZCreate' and e['d'] == m) >= 2 for m in missing)
   elif last is not None and last['e'] in ('Join', 'Leave'):
     w['duplicate'] = last['e'].lower()
   return w
@@ -637,7 +717,7 @@ def _probe_vm(_):
   loop = common.boot()
   # VM: member listed, deleted before it is read, re-created before the next listing
   d = Driver(loop, 1, [], [])
-  for o in (['PC'], ['Q'], ['ZC', 1], ['S'], ['ZD', 1], ['S'], ['ZC', 1, 1], ['Q']):
+  for o in (['PC'], ['Q'], ['ZC', 1], ['S'], ['ZD', 1], ['S'], ['ZC', 1], ['Q']):
     d.op(o)
   return ['VM'] if any(e['e'] == 'Join' for e in d.ev) else []
 
@@ -686,7 +766,7 @@ def _spec_projection(st):
       reqs.append(list(_REQ_OF_PC[c['gl'][g]['pc']]))
   return {'nodes': list(c['nodes']), 'members': list(c['members']), 'watching': c['watching'],
           'qlen': len(c['nq']), 'reqs': reqs, 'cbq': len(c['cbq']), 'dataW': st['dataW'],
-          'childW': len(st['childW']), 'out': [[e['e'], e['m']] for e in c['out']]}
+          'childW': len(st['childW']), 'out': [[e['e'], e['m'], e['d']] for e in c['out']]}
 
 
 def _features(st):
@@ -710,19 +790,25 @@ def _features(st):
   return f
 
 
-def _compact(states_actions):
+def _cfg_consts(cfg):
+  """(number of names, number of distinct data values) of a ZkServerSet cfg file."""
+  txt = open(os.path.join(tlc.SPECS, cfg)).read()
+  n = len(re.search(r'Names = \{([^}]*)\}', txt).group(1).split(','))
+  nv = int(re.search(r'NValues = (\d+)', txt).group(1))
+  return n, nv
+
+
+def _compact(states_actions, consts):
   """[(action, params, state)...] with the first element the initial state ->
   JSON-able behaviour {n, rj, rl, steps: [[name, params, expected projection]...], feat}."""
   st0 = states_actions[0][2]
-  n = 2
+  n, nv = consts
   feat = set()
   steps = []
   for (name, params, st) in states_actions:
-    for x in list(st['kids']) + list(st['c']['nodes']) + list(st['c']['members']):
-      n = max(n, x)
     feat |= _features(st)
     steps.append([name, list(params), _spec_projection(st)])
-  return {'n': n, 'rj': list(st0['rj']), 'rl': list(st0['rl']), 'steps': steps, 'feat': sorted(feat)}
+  return {'n': n, 'nv': nv, 'rj': list(st0['rj']), 'rl': list(st0['rl']), 'steps': steps, 'feat': sorted(feat)}
 
 
 _OPS = {'PCreate': 'PC', 'PDelete': 'PD', 'ZCreate': 'ZC', 'ZDelete': 'ZD', 'Serve': 'S'}
@@ -733,7 +819,7 @@ def _replay_one(beh):
   of the real objects with the spec state after every step."""
   loop = common.boot()
   del loop.errors[:]
-  d = Driver(loop, beh['n'], beh['rj'], beh['rl'])
+  d = Driver(loop, beh['n'], beh['rj'], beh['rl'], None, beh.get('nv'))
   drift = None
   steps = 0
 
@@ -741,7 +827,7 @@ def _replay_one(beh):
     real = d.projection()
     if real is None or exp is None:
       return None
-    real['out'] = [[e['e'], e['m']] for e in d.ev[before:] if e['e'] in ('Join', 'Leave', 'Raised')]
+    real['out'] = [[e['e'], e['m'], e['d']] for e in d.ev[before:] if e['e'] in ('Join', 'Leave', 'Raised')]
     if exp != real:
       return {'step': steps, 'action': [name, params], 'spec': exp, 'real': real}
     return None
@@ -760,7 +846,7 @@ def _replay_one(beh):
     if drift is None:
       drift = compare(name, params, exp, before)
   d.op(['Q'])
-  return {'cfg': {'n': beh['n'], 'rj': sorted(d.rj), 'rl': sorted(d.rl)}, 'ev': d.ev, 'steps': steps,
+  return {'cfg': {'n': beh['n'], 'nv': d.nvalues, 'rj': sorted(d.rj), 'rl': sorted(d.rl)}, 'ev': d.ev, 'steps': steps,
           'drift': drift, 'meta': _meta(d, loop), 'proj': d.projection() is not None}
 
 
@@ -848,6 +934,7 @@ def _graph_behaviours(env, cfg, budget, seed):
       unc.discard(pe)
     paths.append(path)
   cache = {}
+  consts = _cfg_consts(cfg)
 
   def state(nid):
     if nid not in cache:
@@ -861,7 +948,7 @@ def _graph_behaviours(env, cfg, budget, seed):
       m = re.match(r'(\w+)(?:\((.*)\))?$', a)
       params = tlc.parse_tla('<<' + m.group(2) + '>>') if m.group(2) else []
       sa.append((m.group(1), params, state(v)))
-    behs.append(_compact(sa))
+    behs.append(_compact(sa, consts))
   return behs, {'graph_states': len(labels), 'graph_transitions': len(allE),
                 'graph_transitions_replayed': len(allE) - len(unc)}
 
@@ -878,7 +965,8 @@ def replay_behaviours(prop, tier, seed):
   if not sims:
     raise RuntimeError('no behaviours from TLC simulate:\n' + r.stdout[-2000:])
   for b in sims:
-    behs.append(_compact([('Init', [], b[0][1])] + [(a[0], a[1], st) for (a, st) in b[1:]]))
+    behs.append(_compact([('Init', [], b[0][1])] + [(a[0], a[1], st) for (a, st) in b[1:]],
+                         _cfg_consts('ZkServerSet_sim.cfg')))
   B = 20
   batches = [behs[i:i + B] for i in range(0, len(behs), B)]
   res = common.run_forked(_replay_batch, batches, timeout_s=300)
